@@ -134,8 +134,28 @@ func c13NoSwallowedPanic(c *Ctx, rule string, writers []*ssa.Function) {
 			continue
 		}
 		n++
-		rs := recoversIn(w)
-		c.Check(len(rs) == 0, rule, FStr(w), "no-recover", w.Pos(), "Write does not recover from panics of its destination (a recovered panic makes Write return its results as they stand: a count below len(p) with a nil error)")
+		var rs []*ssa.Defer
+		for _, df := range recoversIn(w) {
+			// a handler that turns the panic into the Write's error is within the contract (a short count WITH an error)
+			setsErr := false
+			if mk, ok := df.Call.Value.(*ssa.MakeClosure); ok {
+				if g, ok := mk.Fn.(*ssa.Function); ok {
+					AllInstrs(g, func(in ssa.Instruction) {
+						st, isSt := in.(*ssa.Store)
+						if !isSt || IsNilConst(st.Val) {
+							return
+						}
+						if fv, isFV := st.Addr.(*ssa.FreeVar); isFV && TStr(deref(fv.Type())) == "error" {
+							setsErr = true
+						}
+					})
+				}
+			}
+			if !setsErr {
+				rs = append(rs, df)
+			}
+		}
+		c.Check(len(rs) == 0, rule, FStr(w), "no-recover", w.Pos(), "Write does not swallow panics of its destination (a recovered panic that is not turned into the returned error makes Write return its results as they stand: a count below len(p) with a nil error)")
 	}
 	c.Check(n >= 3, rule, "writers", "sites", token.NoPos, "%d Write methods examined", n)
 }
